@@ -192,7 +192,7 @@ def build_mutation(ck, layout, xb, B, op, src, obs=None):
     return {"eng": eng, "hyps": hyps, "goals": {g: z3.Implies(pc, f) for g, f in G.items()}, "reach": {"reach_end": pc}}
 
 
-def build_engine_ops(ck, layout, t, B, maxcount, fail, src, obs=None):
+def build_engine_ops(ck, layout, t, B, maxcount, fail, src, obs=None, readd=False, evict=False):
     """the same kernel reached through the async engine API: DhtCoreEngine::select_query_peers with trust selection disabled
     (= exactly the closest candidates in distance order), and handle_node_failure(x) followed by find_nodes (x is gone)"""
     from harness import run_async
@@ -243,7 +243,26 @@ def build_engine_ops(ck, layout, t, B, maxcount, fail, src, obs=None):
         rk = eng.alloc(st, VStruct([keyb], "DhtKey"))
         if fail:
             xbytes = VArr([z3.simplify(z3.Extract(255 - 8 * i, 248 - 8 * i, xbv)) for i in range(32)])
-            st, _ = run_async(eng, ck.fn_in("DhtCoreEngine", "handle_node_failure"), [re_, VStruct([VStruct([xbytes], "DhtKey")], "NodeId")], st)
+            xid = VStruct([VStruct([xbytes], "DhtKey")], "NodeId")
+            if readd:
+                # the peer is first announced again under another address (refresh of its entry), then fails / is evicted
+                addfn = [n for n in ck.crate.find(r"core_engine::<impl at [^>]*>::add_node$") if (eng.impl_info(n) or (None, None))[1] == "KademliaRoutingTable"][0]
+                st, _ = eng.call(addfn, [rt, node_info(eng, xbytes, 999)], st)
+            if evict:
+                import c13_engine
+
+                info = eng.enum_info("EvictionReason")
+                rej = VEnum(info, bv(info.index("CloseGroupRejection"), 8), {info.index("CloseGroupRejection"): ()})
+                # evict_node records the eviction in the security metrics
+                sm = c13_engine.mk_struct_fill(eng, "SecurityMetricsCollector", {"nodes_evicted_total": bv(0, 64), "eviction_by_reason": eng.alloc(st, c13_engine.empty_map(64))})
+                E = eng.load(st, re_)
+                names = [f for f, _ in adt.fields]
+                vals2 = list(E.f)
+                vals2[names.index("security_metrics")] = eng.alloc(st, sm)
+                eng.store(st, re_, VStruct(vals2, "DhtCoreEngine"))
+                st, _ = run_async(eng, ck.fn_in("DhtCoreEngine", "evict_node"), [re_, eng.alloc(st, xid), rej], st)
+            else:
+                st, _ = run_async(eng, ck.fn_in("DhtCoreEngine", "handle_node_failure"), [re_, xid], st)
             st2, out = run_async(eng, ck.fn_in("DhtCoreEngine", "find_nodes"), [re_, rk, count], st)
             res = out.pay[0][0]
             okk = out.idx == bv(0, 8)
@@ -269,6 +288,18 @@ def build_engine_ops(ck, layout, t, B, maxcount, fail, src, obs=None):
     else:
         G = {"trust_disabled/" + g: f for g, f in G.items()}
     return {"eng": eng, "hyps": hyps, "goals": {g: z3.Implies(pc, f) for g, f in G.items()}, "reach": {"reach_nonempty": z3.And(pc, rl != 0)}}
+
+
+def engine_cases(only_removal=False):
+    """the kernel reached through the async engine API (also registered by C16: a failed / evicted peer appears in no answer)"""
+    base = {"layout": [3, 7], "t": 3, "B": 2, "maxcount": 2}
+    cs = []
+    if not only_removal:
+        cs.append((dict(base, fail=False), "engine[select_query_peers, trust selection disabled]"))
+    cs.append((dict(base, fail=True), "engine[handle_node_failure+find_nodes]"))
+    cs.append((dict(base, fail=True, readd=True), "engine[re-announced under another address, handle_node_failure+find_nodes]"))
+    cs.append((dict(base, fail=True, readd=True, evict=True), "engine[re-announced under another address, evict_node+find_nodes]"))
+    return cs
 
 
 def sum_bool(conds):
@@ -321,7 +352,7 @@ def register(ck, tag, driver, params, builder):
 
 def builder_for(ck, driver, params):
     if driver == "engine_ops":
-        return lambda s, obs: build_engine_ops(ck, params["layout"], params["t"], params["B"], params["maxcount"], params["fail"], s, obs)
+        return lambda s, obs: build_engine_ops(ck, params["layout"], params["t"], params["B"], params["maxcount"], params["fail"], s, obs, params.get("readd", False), params.get("evict", False))
     if driver == "closest":
         return lambda s, obs: build_closest(ck, params["layout"], params["t"], params["B"], params["maxcount"], s, obs)
     return lambda s, obs: build_mutation(ck, params["layout"], params["xb"], params["B"], params["op"], s, obs)
@@ -337,9 +368,7 @@ def run(tier):
         params = {"layout": layout, "xb": xb, "B": B, "op": op}
         tag = f"{op}[buckets={layout},x in {xb if xb is not None else 'local'}]"
         ck.guarded(tag, lambda params=params, tag=tag: register(ck, tag, "mutation", params, builder_for(ck, "mutation", params)))
-    for fail in (False, True):
-        params = {"layout": [3, 7], "t": 3, "B": 2, "maxcount": 2, "fail": fail}
-        tag = "engine[" + ("handle_node_failure+find_nodes" if fail else "select_query_peers, trust selection disabled") + "]"
+    for params, tag in engine_cases():
         ck.guarded(tag, lambda params=params, tag=tag: register(ck, tag, "engine_ops", params, builder_for(ck, "engine_ops", params)))
     ck.run_queries()
     import kanicheck
